@@ -11,6 +11,7 @@ pub use protocol::{Control, Wire, WireReader, WireSession, WireWriter};
 #[cfg(feature = "verif")]
 pub mod verif {
     pub use super::frame::{Control, Frame, FrameData, StreamId, StreamKind, Version};
+    pub use super::protocol::verif::StreamsProbe;
     pub use super::varint::{payload as varint_payload, BoundsExceeded, VarInt};
 }
 use radicle::node::UserAgent;
